@@ -19,8 +19,8 @@ RULE = ("two real dilated wormholes (Noise stand-in) run a random application sc
         "makes kills land mid-frame. Non-trivial = at least one effective kill and one delivered write; "
         "distinct = scheduler decision traces.")
 ASSUMPTIONS = ["Noise stand-in (spec-conformant NNpsk0)", "bounded progress: 600 virtual seconds after the last kill"]
-FLOORS = {"quick": {"kills": 250, "writes_delivered": 2000, "complete": 300, "app_pauses": 100, "app_resumes_while_offline": 8},
-          "thorough": {"kills": 8000, "writes_delivered": 60000, "complete": 8000, "app_pauses": 3000, "app_resumes_while_offline": 250}}
+FLOORS = {"quick": {"kills": 250, "writes_delivered": 2000, "complete": 300, "app_pauses": 100, "app_resumes_while_offline": 8, "false_factories": 40, "calls_from_inside_protocol_callbacks": 300},
+          "thorough": {"kills": 8000, "writes_delivered": 60000, "complete": 8000, "app_pauses": 3000, "app_resumes_while_offline": 250, "false_factories": 1000, "calls_from_inside_protocol_callbacks": 8000}}
 
 
 def cases(tier, seed, prep=None):
